@@ -412,8 +412,7 @@ func (self Value) getByPath(pathes ...Path) (Value, []int) {
 			if i == len(pathes)-1 && err == errNotFound {
 				return Value{errNotFoundLast(unsafe.Pointer(uintptr(self.v)+uintptr(start)), tt), nil, false}, address
 			}
-			en := err.(Node)
-			return errValue(en.ErrCode().Behavior(), "invalid value node.", err), address
+			return errValue(errCodeOf(err), "invalid value node.", err), address
 		}
 		// if not the last one, it must be a complex node, so need to skip tag
 		if i != len(pathes)-1 {
@@ -430,16 +429,14 @@ func (self Value) getByPath(pathes ...Path) (Value, []int) {
 		kt = desc.Key().Type()
 		et = desc.Elem().Type()
 		if s, err := p.SkipAllElements(desc.BaseId(), desc.IsPacked()); err != nil {
-			en := err.(Node)
-			return errValue(en.ErrCode().Behavior(), "invalid map node.", err), address
+			return errValue(errCodeOf(err), "invalid map node.", err), address
 		} else {
 			size = s
 		}
 	case proto.LIST:
 		et = desc.Elem().Type()
 		if s, err := p.SkipAllElements(desc.BaseId(), desc.IsPacked()); err != nil {
-			en := err.(Node)
-			return errValue(en.ErrCode().Behavior(), "invalid list node.", err), address
+			return errValue(errCodeOf(err), "invalid list node.", err), address
 		} else {
 			size = s
 		}
